@@ -592,6 +592,12 @@ func (e *Env) Setup(h History) (ns string) {
 		must(qix.Add(&scheduling.Queue{ObjectMeta: metav1.ObjectMeta{Name: QueueName}}))
 	}
 	j := NewJob(ns)
+	// the starting resourceVersion is a function of the case's tokens (replay rebuilds it)
+	k := h.Spec.Min + int64(len(h.Ops)) + int64(len(h.Pods))
+	for _, t := range h.Spec.Tasks {
+		k += t.Replicas
+	}
+	j.ResourceVersion = e.StartRV(k)
 	j.Spec = GoSpec(h.Spec)
 	j.Status = GoStatus(h.Status)
 	e.APIAddJob(j)
